@@ -181,7 +181,18 @@ def run_attack(case):
     nw = state.shape[1]
     words = sorted(rng.choice(nw, int(rng.integers(1, 3)), replace=False).tolist())
     wsel = words if rng.random() < 0.7 or len(words) > 1 else words[0]
-    sf = ctor(words=wsel)
+    ng_all = 256 if cipher == 'aes' else 64
+    guess_vals = None
+    if rng.random() < 0.35:
+        # a subset / another order of the guesses (it contains the true key values): scores are then indexed by position in `guesses`
+        must_have = set(int(exp_rk[w]) for w in words)
+        size = int(rng.integers(max(len(must_have) + 2, ng_all // 4), ng_all + 1))
+        pool = [g for g in rng.permutation(ng_all).tolist() if g not in must_have][:size - len(must_have)] + sorted(must_have)
+        guess_vals = np.array(pool, dtype='uint8')[rng.permutation(len(pool))]
+        sf = ctor(words=wsel, guesses=guess_vals)
+        t.count('attacks_with_guess_subset')
+    else:
+        sf = ctor(words=wsel)
     st = state[:, words]
     hw = np.array([[int(v).bit_count() for v in row] for row in st], dtype=float)
     bit = int(rng.integers(0, 8 if (cipher == 'aes' or 'AddRoundKey' in case['name']) else 4))
@@ -223,6 +234,11 @@ def run_attack(case):
     exp = exp_rk[words]
     scores = np.asarray(a.scores)
     ng = 256 if cipher == 'aes' else 64
+    if guess_vals is not None:
+        ng = len(guess_vals)
+        pos_of = {int(g): i for i, g in enumerate(guess_vals.tolist())}
+        exp = np.array([pos_of[int(v)] for v in exp])            # position of the true key value in the guesses array
+        info['guesses'] = f'{ng} of {ng_all}, shuffled'
     if not t.check(scores.shape in ((ng, len(words)), (ng,)), 'scores_layout', lambda: dict(info, got=scores.shape)):
         return t.result()
     _judge(t, scores, exp, info)
